@@ -512,6 +512,14 @@ pub fn generate(ctx: &mut Ctx) {
             }
         }
     }
+    // ---- code points with a reputation, leading / inner / trailing, through every route
+    for cp in ["\u{feff}", "\u{3000}", "\u{a0}", "\u{ad}", "\u{200b}", "\u{2028}", "\u{fffd}", "\u{fffe}", "\u{85}", "\u{7f}"] {
+        if own(ctx) {
+            for (pre, post) in [("", "http://example.org/a"), ("", "a/b"), ("", "a:b/c"), ("", ""), ("s:", ""), ("s://h/", "/x"), ("s://", "@h"), ("?", ""), ("#", "")] {
+                ctx.run(Case::new("one").arg(format!("{}{}{}", pre, cp, post)));
+            }
+        }
+    }
     // ---- G-ipv6
     for inner in gen::ipv6_shapes() {
         if own(ctx) {
